@@ -399,6 +399,15 @@ def guard_predicates(ctx, b, bb):
         t = T.operand(op)
         t = terms.inline_calls(ctx.I, ctx.I.expand(t), own_inlinable)
         pol = True
+        if t[0] == 'discr':
+            # `match opt { Some(_) => .., None => .. }`: the discriminant of an Option is the same test as is_some()
+            some = True if val == 1 or (isinstance(val, tuple) and val[0] == 'not' and val[1] == [0]) else False if val == 0 or (isinstance(val, tuple) and val[0] == 'not' and val[1] == [1]) else None
+            if some is None:
+                continue
+            nf = normal_guard(ctx, ('call', 'std::option::Option::<T>::is_some', (t[1],), -1), some)
+            if nf:
+                out.append(nf)
+            continue
         if val == 0:
             pol = False
         elif isinstance(val, tuple) and val[0] == 'not' and val[1] == [0]:
